@@ -12,7 +12,7 @@ MODEL_OPS = 'ConvolveM.rebin_m (isub_full / Isub.isub_m / Rebin.nu1,nu2), normal
 RULE = ('filters with 2-60 samples (irregular spacing, zero / non-zero edges, stored in increasing or decreasing frequency; built in memory or read by Filter.read '
         'from a two-column wavelength/response text file) re-binned onto SED grids with 2-80 frequencies (either order; coarser / finer; disjoint, partial, full overlap; '
         'bin edges placed exactly on filter end points and nodes); values on a dyadic grid. Compared: every R_i, sum R_i, flux = sum F_i R_i for random / flat / '
-        'combined spectra, error^2. non-trivial = the SED range overlaps the filter range in more than a point.')
+        'combined spectra, error^2; in-memory filters share their response array with a second band that is normalised afterwards. non-trivial = the SED range overlaps the filter range in more than a point.')
 EXHAUSTIVE = {'quick': False, 'thorough': False}
 ASSUMPTIONS = ['float rounding: R_i compared with tolerance 1e-9 of the larger of the largest |R_i| and the integral of |response| over the whole filter (exact cancellation of large antiderivative values is not reproduced by floats)',
                'Filter.read: the frequencies astropy derives from the wavelengths are taken from the implementation (text parsing and c/lambda are oracles)']
@@ -94,12 +94,18 @@ def impl(case):
                 for nu, r in zip(fnu, resp):
                     f.write('%s %s\n' % (repr(c / nu * 1e6), repr(r)))     # wavelength in micron
             filt = Filter.read(p)
+        twin = None
     else:
-        filt = Filter(name='FX', central_wavelength=1.25 * u.micron, nu=np.array(fnu) * u.Hz, response=np.array(resp))
+        # two bands built from ONE response array (e.g. the same top-hat profile for several filters), as user code does
+        shared = np.array(resp)
+        filt = Filter(name='FX', central_wavelength=1.25 * u.micron, nu=np.array(fnu) * u.Hz, response=shared)
+        twin = Filter(name='TW', central_wavelength=0.4 * u.micron, nu=np.array(fnu) * 3.0 * u.Hz, response=shared)
     used_nu = [float(x) for x in filt.nu.to(u.Hz).value]
     used_resp = [float(x) for x in filt.response]
     if case['normalize']:
         filt.normalize()
+        if twin is not None:
+            twin.normalize()        # normalising the other band must leave this one as it is
     norm_resp = [float(x) for x in filt.response]
     snu = _ordered(case['snu'], case['sorder'])
     binned = filt.rebin(np.array(snu) * u.Hz)
